@@ -190,6 +190,42 @@ fn inbound_balance(e: usize) {
 proof! { #[kani::unwind(26)] fn c04_q_inbound_balance_exchange1() { inbound_balance(1) } }
 proof! { #[kani::unwind(26)] fn c04_t_inbound_balance_exchange0() { inbound_balance(0) } }
 
+// inbound: a cancel response (order key named by exchange id + exchange instrument name) lands on this link's exchange index and
+// on that exchange's instrument index, and a response naming another exchange is refused even if the instrument name is known here
+fn inbound_cancel_response(e: usize) {
+    use barter_execution::order::{id::OrderId, state::Cancelled};
+    let indexer = AccountEventIndexer::new(std::sync::Arc::new(execution_map(e)));
+    let k = any_usize_lt(4);
+    let x = any_usize_lt(3);
+    let exchange = if x == 0 { ExchangeId::BinanceSpot } else if x == 1 { ExchangeId::Kraken } else { ExchangeId::Okx };
+    let response = OrderEvent {
+        key: OrderKey { exchange, instrument: instrument_name(INSTRUMENT_NAMES[k]), strategy: StrategyId(SmolStr::new_inline("s")), cid: ClientOrderId(SmolStr::new_inline("c")) },
+        state: Ok(Cancelled { id: OrderId(SmolStr::new_inline("o")), time_exchange: time_at(1) }),
+    };
+    let mut want = None;
+    let mut i = 0;
+    while i < INSTRUMENTS.len() {
+        if x == e && INSTRUMENTS[i].0 == e && INSTRUMENTS[i].1 == INSTRUMENT_NAMES[k] { want = Some(InstrumentIndex(i)); }
+        i += 1;
+    }
+    let out = indexer.order_response_cancel(response);
+    match &out {
+        Ok(event) => {
+            assert!(want.is_some(), "C04: a cancel response naming another exchange or an unknown instrument was translated");
+            assert!(event.key.exchange == ExchangeIndex(e), "C04: cancel response applied to the wrong exchange index");
+            assert!(Some(event.key.instrument) == want, "C04: cancel response applied to the wrong instrument index");
+            assert!(event.state.is_ok(), "C04: cancel response outcome changed by translation");
+        }
+        Err(_) => assert!(want.is_none(), "C04: a cancel response for this exchange's instrument could not be translated"),
+    }
+    kani::cover!(want.is_some(), "own exchange, known instrument");
+    kani::cover!(x != e && e == 1 && k >= 1 && k <= 2, "foreign exchange id with an instrument name known on this link");
+    core::mem::forget(out);
+    core::mem::forget(indexer);
+}
+proof! { #[kani::unwind(26)] fn c04_q_inbound_cancel_response_exchange1() { inbound_cancel_response(1) } }
+proof! { #[kani::unwind(26)] fn c04_t_inbound_cancel_response_exchange0() { inbound_cancel_response(0) } }
+
 proof! {
     #[kani::unwind(26)]
     fn c04_twin_must_fail() {
